@@ -403,9 +403,9 @@ fn gen_case(seed: u64, tag: &str, i: u64, feats: &[&str], cycles: usize) -> (SvM
     let m = svgen::generate(&mut rng, feats);
     let d = design_of(&m, "");
     let mut stim = stimulus(&d, &mut rng, cycles);
-    // ports declared by a `sgn_port_*` feature (`u<N>`): drive the top bit high in two cycles out of three
+    // ports declared by a `sgn_port_*` feature (`up<N>`): drive the top bit high in two cycles out of three
     for (k, p) in m.inputs.iter().enumerate() {
-        if p.name.starts_with('u') {
+        if p.name.starts_with("up") {
             for (c, cyc) in stim.cycles.iter_mut().enumerate() {
                 if c % 3 != 2 {
                     let top = p.width - 1;
